@@ -117,22 +117,23 @@ type jPoint struct {
 }
 
 type jQuery struct {
-	Fields   []jField `json:"fields"` // nil = *
-	GroupBy  string   `json:"gb"`     // "" (no clause), "*" , "dims", "_" (nothing)
-	Dims     []string `json:"dims"`
-	PeriodNS int64    `json:"period"`
-	AsOf     XTime    `json:"asof"`
-	Until    XTime    `json:"until"`
-	HasAsOf  bool     `json:"has_asof"`
-	HasUntil bool     `json:"has_until"`
-	Where    *XPred   `json:"where,omitempty"`
-	Having   string   `json:"having,omitempty"`
-	Order    []jOrder `json:"order,omitempty"`
-	Limit    int      `json:"limit,omitempty"`
-	HasLimit bool     `json:"has_limit,omitempty"`
-	Offset   int      `json:"offset,omitempty"`
-	Mem      bool     `json:"mem"`     // includeMemStore
-	ByName   bool     `json:"by_name"` // query fields refer to table fields by name
+	Fields      []jField `json:"fields"` // nil = *
+	GroupBy     string   `json:"gb"`     // "" (no clause), "*" , "dims", "_" (nothing)
+	Dims        []string `json:"dims"`
+	PeriodNS    int64    `json:"period"`
+	AsOf        XTime    `json:"asof"`
+	Until       XTime    `json:"until"`
+	HasAsOf     bool     `json:"has_asof"`
+	HasUntil    bool     `json:"has_until"`
+	Where       *XPred   `json:"where,omitempty"`
+	Having      string   `json:"having,omitempty"`
+	Order       []jOrder `json:"order,omitempty"`
+	Limit       int      `json:"limit,omitempty"`
+	HasLimit    bool     `json:"has_limit,omitempty"`
+	Offset      int      `json:"offset,omitempty"`
+	Mem         bool     `json:"mem"`                    // includeMemStore
+	FlushBefore bool     `json:"flush_before,omitempty"` // FlushAll right before this query
+	ByName      bool     `json:"by_name"`                // query fields refer to table fields by name
 }
 
 var dimNames = []string{"d1", "d2", "d3"}
@@ -260,14 +261,7 @@ type dbRun struct {
 
 func openDB(dir string, t *jTable, name string) (*zenodb.DB, error) {
 	db, err := zenodb.NewDB(&zenodb.DBOpts{Dir: dir, VirtualTime: true, IterationCoalesceInterval: time.Millisecond,
-		Panic: func(e interface{}) {
-			// zenodb's WAL reader goroutines outlive Close and "panic" once the scratch
-			// directory is gone; end such a goroutine quietly, re-panic for anything else
-			if strings.Contains(fmt.Sprint(e), "Unable to read from WAL") {
-				runtime.Goexit()
-			}
-			panic(e)
-		}})
+		Panic: quietPanic})
 	if err != nil {
 		return nil, err
 	}
@@ -279,6 +273,27 @@ func openDB(dir string, t *jTable, name string) (*zenodb.DB, error) {
 		return nil, err
 	}
 	return db, nil
+}
+
+// quietPanic: zenodb's WAL reader goroutines outlive Close and "panic" once the scratch directory
+// is gone; end such a goroutine quietly, re-panic for anything else.
+func quietPanic(e interface{}) {
+	if strings.Contains(fmt.Sprint(e), "Unable to read from WAL") {
+		runtime.Goexit()
+	}
+	panic(e)
+}
+
+func runQueryCtx(ctx context.Context, db *zenodb.DB, sqlStr string, mem bool) (rows []obsRow, err error) {
+	src, err := db.Query(sqlStr, false, nil, mem)
+	if err != nil {
+		return nil, err
+	}
+	_, err = src.Iterate(ctx, core.FieldsIgnored, func(r *core.FlatRow) (bool, error) {
+		rows = append(rows, obsRow{TS: time.Unix(0, r.TS), Key: r.Key.AsMap(), Vals: append([]float64(nil), r.Values...)})
+		return true, nil
+	})
+	return rows, err
 }
 
 func (p *jPoint) goDims() map[string]interface{} {
